@@ -508,6 +508,11 @@ def _default_of(pieces, kind, text_without, slots, what):
 def probe_tables(repo):
     """Every entry of the table, derived by running the code."""
     from txdbus import objects, interface
+    try:        # failures left in Deferreds by the probes (that IS the observation) must not be printed at GC time
+        from twisted.logger import globalLogBeginner
+        globalLogBeginner.beginLoggingTo([lambda e: None], redirectStandardIO=False, discardBuffer=True)
+    except Exception:
+        pass
     consts = _string_constants(repo)
     ident = [c for c in consts if c.isidentifier()]
     dotted = [c for c in consts if '.' in c and all(x.isidentifier() for x in c.split('.')) and ' ' not in c]
@@ -765,6 +770,21 @@ def probe_tables(repo):
         escape = None
     else:
         raise TranslatorError('probe: NUL in the exception text gave %r' % (r,))
+    # ... and does it cover the rejected error name quoted in the notice (it must: the name is user data too)
+    bad2 = Zq7Error('Zq7 text')
+    bad2.dbusErrorName = 'zq7\x00bad name'
+    hk = _mk_handler([mkclass(Zq7NoArgs=raiser(bad2))(MK_PATH)])
+    r, e = _call(hk, MK_PATH, 'Zq7NoArgs', MK_IFACE)
+    if len(r) == 1 and _is_err(r[0]) and escape is not None and ('zq7' + escape[1] + 'bad name') in r[0].body[0]:
+        escape_covers_name = True
+    elif len(r) == 0:
+        escape_covers_name = False      # observed: nothing is sent (recorded; the harness has the failing input)
+        if escape is not None:
+            ADVISORIES.append('an exception whose rejected dbusErrorName contains NUL gets NO reply although the text is '
+                              'escaped: the escape does not cover the invalid-name notice (recorded as '
+                              'escapeCoversInvalidName := false)')
+    else:
+        raise TranslatorError('probe: invalid dbusErrorName containing NUL gave %r' % (r,))
     hk = _mk_handler([mkclass(Zq7NoArgs=raiser(Zq7Error('a\udc80b')))(MK_PATH)])
     r, e = _call(hk, MK_PATH, 'Zq7NoArgs', MK_IFACE)
     mid = r[0].body[0][1:-1] if (len(r) == 1 and _is_err(r[0])) else None
@@ -773,7 +793,7 @@ def probe_tables(repo):
     return {'builtin': builtin, 'errs': errs, 'prefix': prefix, 'notice': notice, 'fallback': fallback,
             'escape': escape, 'enc_handler': handler, 'attr_prefix': P, 'unbound': unbound,
             'caller_kw': KW, 'caller_min': caller_min, 'order': order, 'reply_rule': reply_rule,
-            'managed_answered': managed_answered}
+            'managed_answered': managed_answered, 'escape_covers_name': escape_covers_name}
 
 
 def _norm_pieces(ps):
@@ -831,9 +851,15 @@ def tables(repo):
     def same(key, x, y):
         if x != y:
             raise TranslatorError('the AST route and the probing route disagree on %s: %r vs %r' % (key, x, y))
-    for k in ('prefix', 'notice', 'fallback', 'escape', 'attr_prefix', 'unbound', 'caller_kw'):
+    for k in ('prefix', 'notice', 'fallback', 'attr_prefix', 'unbound', 'caller_kw'):
         if k in a:
             same(k, a[k], t[k])
+    if a.get('escape') is not None:
+        same('escape', a['escape'], t['escape'])
+    elif 'escape' in a and t['escape'] is not None:
+        ADVISORIES.append('send_error escapes the text (probed) but not with the statement shape the AST route knows '
+                          '(`errMsg = errMsg.replace(c, r)...` after the name was chosen); where the escape is applied '
+                          'was derived by probing')
     if 'enc_handler' in a and a.get('escape') is not None:
         same('enc_handler', a['enc_handler'], t['enc_handler'])
     if 'caller_min' in a:
@@ -921,6 +947,9 @@ def emit(repo):
     o.append('/-- A GetManagedObjects call whose reply cannot be built is answered with the `managedFailed` error')
     o.append('(repair C10-02); `false`: the exception escapes from the dispatcher and nothing is sent. -/')
     o.append('def managedFailureAnswered : Bool := %s' % ('true' if t['managed_answered'] else 'false'))
+    o.append('/-- The text escape of send_error is applied to the WHOLE text it sends, including the rejected error name')
+    o.append('quoted in the invalid-name notice; `false`: an invalid dbusErrorName containing NUL gets no reply. -/')
+    o.append('def escapeCoversInvalidName : Bool := %s' % ('true' if t['escape_covers_name'] else 'false'))
     o.append('')
     o.append('end Txdbus.Gen.Dispatch')
     return '\n'.join(o) + '\n'
